@@ -508,6 +508,6 @@ func drawSpan(t *rapid.T) vcase {
 
 func TestSpan(t *testing.T) {
 	grid := spanGrid()
-	vk.Enumerate(t, "span-grid", len(grid), func(i int) vcase { return grid[i] }, checkSpan)
+	vk.Enumerate(t, "span", len(grid), func(i int) vcase { return grid[i] }, checkSpan)
 	vk.Run(t, "span", vk.Opts{Quick: 6000, Thorough: 60000, NoCrumb: true}, drawSpan, checkSpan)
 }
